@@ -129,13 +129,47 @@ def r17_5(ctx):
         ctx.analysed(f.qual)
         n += 1
 
+        # helpers of the class that hand back `<their list argument>.index(..)` (or None when nothing is found)
+        def index_summary(call: ast.AST) -> Optional[str]:
+            if not (isinstance(call, ast.Call) and isinstance(call.func, ast.Attribute) and isinstance(call.func.value, ast.Name) and call.func.value.id == "self"):
+                return None
+            q = f"{MODEL}:MenuConfigState.{call.func.attr}"
+            if not repo.has_func(q):
+                return None
+            h = repo.func(q)
+            ps = [a.arg for a in h.node.args.args][1:]
+            rets = [r for r in ast.walk(h.node) if isinstance(r, ast.Return)]
+            which = set()
+            for r in rets:
+                if r.value is None or (isinstance(r.value, ast.Constant) and r.value.value is None):
+                    continue
+                v_ = r.value
+                if isinstance(v_, ast.Call) and isinstance(v_.func, ast.Attribute) and v_.func.attr == "index" and isinstance(v_.func.value, ast.Name) and v_.func.value.id in ps:
+                    which.add(ps.index(v_.func.value.id))
+                else:
+                    return None
+            if len(which) == 1 and rets:
+                i_ = which.pop()
+                return ast.unparse(call.args[i_]) if i_ < len(call.args) else None
+            return None
+
+        local_idx: Dict[str, str] = {}
+        for a_ in ast.walk(f.node):
+            if isinstance(a_, ast.Assign) and isinstance(a_.targets[0], ast.Name) and index_summary(a_.value):
+                local_idx[a_.targets[0].id] = index_summary(a_.value)
+
         def on_stmt(st, p: Path, loops):
             if isinstance(st, ast.Assign):
                 t, v = ast.unparse(st.targets[0]), ast.unparse(st.value)
                 if t == "self.shown":
                     p.events.append(("STORE", st.lineno, v))
                 if t == "self.sel_node_i":
-                    if ".index(" in v:
+                    if isinstance(st.value, ast.Name) and st.value.id in local_idx and \
+                            any(c in (f"{st.value.id} is None",) and pol is False for c, pol, _, _ in p.conds):
+                        p.events.append(("SELIDX", st.lineno, local_idx[st.value.id]))
+                    elif index_summary(st.value):
+                        p.events.append(("SELOTHER", st.lineno, v))  # may be None: not accepted without a None test
+                    elif ".index(" in v:
                         p.events.append(("SELIDX", st.lineno, v.split(".index(")[0]))
                     elif v == "0":
                         p.events.append(("SELZERO", st.lineno, None))
